@@ -1,6 +1,6 @@
 SPECIFICATION Spec
 CONSTANT Outcomes = {"ok", "fail", "killed"}
 CONSTANT SecondCheck = TRUE
-CONSTANT Launching = FALSE
+CONSTANT Launching = TRUE
 CONSTANT GuardedRead = FALSE
 INVARIANT NoCrash
